@@ -1414,6 +1414,8 @@ func ruleBIND3(c *Ctx) {
 				c.bad(rule, construct, ti.Pos(sl.call.Pos()), "_cast is applied to something other than a stack slot")
 			case sl.typ == fmt.Sprintf("_Tterm%d", pos):
 				c.ok(rule, construct, ti.Pos(sl.call.Pos()), "asserted to the Go type of the term at that slot ({{ %s }})", src)
+			case mp.Variadic && pos == int64(mp.NTerms-1) && sl.typ == fmt.Sprintf("_Tterm%d", variadicTermTag):
+				c.ok(rule, construct, ti.Pos(sl.call.Pos()), "asserted to the Go type of the (slice-typed) term bound to the variadic parameter ({{ %s }})", src)
 			case strings.HasPrefix(sl.typ, "[]_Tterm") && pos == 0 && mp.NTerms > 1 && (strings.HasPrefix(mp.Kind, "one_or_more") || mp.Kind == "list"):
 				elem := strings.TrimPrefix(sl.typ, "[]_Tterm")
 				c.check(elem == fmt.Sprint(mp.NTerms-1), rule, construct, ti.Pos(sl.call.Pos()), "the list operand is asserted to a slice of the element term's type (the helper rule's own type)",
@@ -1700,5 +1702,131 @@ func ruleBIND5(c *Ctx) {
 	}
 	if nStores == 0 {
 		c.unres(rule, "codegen.context.AssignActions/generated-rule-types", p.Pos(fd.Pos()), "no store of an inferred helper-rule type into RuleGoTypes found")
+	}
+}
+
+// ---- BIND-6: a terminal is typed in one way only ----
+//
+// The value pushed for the error terminal is an Error, for every other terminal a Token. Every
+// place of the generator that turns a term into a Go type must make that distinction: a read of
+// context.TokenType is only sound where the path establishes that the terminal at hand is not the
+// grammar's ErrorTerminal, a read of context.ErrorType only where it is. (Pinned tree: fired for
+// getReduceTypeForGeneratedRule, which typed the child of '@error?', '@error+', '@list(@error,..)'
+// as Token; repaired by 15894c4.)
+func ruleBIND6(c *Ctx) {
+	const rule = "BIND-6"
+	p := c.Prog
+	n := 0
+	p.ProdFiles(func(pk *packages.Package, f *ast.File) {
+		info := pk.TypesInfo
+		for _, d := range f.Decls {
+			fd, ok := d.(*ast.FuncDecl)
+			if !ok || fd.Body == nil {
+				continue
+			}
+			par := parents(fd)
+			ast.Inspect(fd.Body, func(m ast.Node) bool {
+				e, ok := m.(ast.Expr)
+				if !ok {
+					return true
+				}
+				isTok := isField(info, e, "internal/codegen", "context", "TokenType")
+				isErr := isField(info, e, "internal/codegen", "context", "ErrorType")
+				if !isTok && !isErr {
+					return true
+				}
+				// not a read: the left-hand side of an assignment
+				if as, ok := par[e].(*ast.AssignStmt); ok {
+					for _, l := range as.Lhs {
+						if l == e {
+							return true
+						}
+					}
+				}
+				n++
+				name := "TokenType"
+				if isErr {
+					name = "ErrorType"
+				}
+				construct := fmt.Sprintf("%s/read(%s)", funcKey(pk, fd), name)
+				// the fact: some expression compared with …ErrorTerminal
+				known, isErrorTerminal := false, false
+				for _, fct := range pathConds(info, par, e) {
+					l, op, r, ok := cmpFact(fct.e, !fct.neg)
+					if !ok || (op != token.EQL && op != token.NEQ) {
+						continue
+					}
+					if isField(info, l, "parsergen/lr1", "Grammar", "ErrorTerminal") || isField(info, r, "parsergen/lr1", "Grammar", "ErrorTerminal") {
+						known, isErrorTerminal = true, op == token.EQL
+					}
+				}
+				switch {
+				case !known:
+					c.bad(rule, construct, p.Pos(e.Pos()), "a term is given the type %s without asking whether it is the error terminal: for '@error' (also under ?, +, * and @list) the value on the stack is an Error, for every other terminal a Token; the action parameter would have to be declared with the wrong type and receives a zero value", name)
+				case isTok == isErrorTerminal:
+					c.bad(rule, construct, p.Pos(e.Pos()), "%s is used on the path where the terminal %s the error terminal", name, map[bool]string{true: "is", false: "is not"}[isErrorTerminal])
+				default:
+					c.ok(rule, construct, p.Pos(e.Pos()), "%s is the type of a terminal only where it %s the error terminal", name, map[bool]string{true: "is", false: "is not"}[isErrorTerminal])
+				}
+				return true
+			})
+		}
+	})
+	if n < 2 {
+		c.unres(rule, "codegen/terminal-types", "", "only %d reads of context.TokenType / context.ErrorType found; 2 were confirmed by hand (getTermGoType)", n)
+	}
+}
+
+// ---- BIND-7: a variadic action method is called with its last argument spread ----
+//
+// getActionMethods records a variadic parameter by its slice type, which the slice type of a list
+// term is assignable to, so the binding is accepted; the generated call compiles only if that last
+// argument is followed by `...`. Decided on the model production whose action method is variadic:
+// its call in _act has the ellipsis, the calls of the non-variadic model productions do not.
+// (Pinned tree: fired; repaired by 5e5362c.)
+func ruleBIND7(c *Ctx) {
+	const rule = "BIND-7"
+	ta := c.tmplOrUnres(rule)
+	if ta == nil {
+		return
+	}
+	ti := ta.Variants[0]
+	cases, fd := actCases(ti)
+	if fd == nil {
+		c.unres(rule, "template/_act", "", "_act not found")
+		return
+	}
+	n := 0
+	for _, mp := range ti.Prods {
+		if mp.Method == "" {
+			continue
+		}
+		cc := cases[mp.Index]
+		if cc == nil {
+			continue
+		}
+		var call *ast.CallExpr
+		ast.Inspect(cc, func(m ast.Node) bool {
+			if ce, ok := m.(*ast.CallExpr); ok && call == nil && strings.HasSuffix(exprString(ce.Fun), "."+mp.Method) {
+				call = ce
+			}
+			return true
+		})
+		if call == nil {
+			continue
+		}
+		n++
+		construct := fmt.Sprintf("template/_act/user-production(%d params, variadic=%v)/spread", mp.NTerms, mp.Variadic)
+		switch {
+		case mp.Variadic && !call.Ellipsis.IsValid():
+			c.bad(rule, construct, ti.Pos(call.Pos()), "the action method's last parameter is variadic (accepted by the binder because its slice type accepts the list term's type) but the generated call passes the slice as one element: the generated parser does not compile")
+		case !mp.Variadic && call.Ellipsis.IsValid():
+			c.bad(rule, construct, ti.Pos(call.Pos()), "the last argument is spread although the action method is not variadic: the generated parser does not compile")
+		default:
+			c.ok(rule, construct, ti.Pos(call.Pos()), "the last argument is spread exactly when the action method is variadic")
+		}
+	}
+	if n < 4 {
+		c.unres(rule, "template/_act/user-calls", "", "only %d action calls of model user productions found in _act (4 expected: arities 0, 1, 3 and the variadic one)", n)
 	}
 }
